@@ -17,7 +17,8 @@ Local Open Scope N_scope.
              injective on (class, string), as is the harness numbering;
    [orphans] triples present in the store's union index only (context dict
              {None: False}): what Memory.add(t, context=None) creates when the
-             triple has no named context;
+             triple has no named context (no longer reachable from the front
+             end since the repair of F18; kept for the historical lemma);
    [known]   Memory.__all_contexts (a Python set of Graph objects; Graph
              equality and hash are those of the identifier). *)
 Record store := { quads : qset; orphans : list triple; known : list cid }.
@@ -116,8 +117,19 @@ Definition cg_graph (d : ds) (oa : option garg) : ds * option cid :=
       (set_st d1 (iadd (st d1) c ts), Some c)         (* copies the foreign triples into this store *)
   end.
 
-(* ConjunctiveGraph._spoc *)
+(* ConjunctiveGraph._spoc, as repaired by the "fix:" commit for F18: a quad
+   that names no graph gets the default graph when [default] is set (add) *)
 Definition cg_spoc (d : ds) (ca : ctxarg) (dflt : bool) : ds * option cid :=
+  match ca with
+  | CTriple => (d, if dflt then Some 0%N else None)
+  | CQuad oa => let (d1, c) := cg_graph d oa in
+                (d1, match c with None => if dflt then Some 0%N else None | Some _ => c end)
+  end.
+
+(* the historical _spoc (finding F18, repaired): the None of a 4-tuple was
+   handed to Memory.add as context=None, which files the triple under the
+   store's union only *)
+Definition cg_spoc_hist (d : ds) (ca : ctxarg) (dflt : bool) : ds * option cid :=
   match ca with
   | CTriple => (d, if dflt then Some 0%N else None)
   | CQuad oa => cg_graph d oa
@@ -125,6 +137,8 @@ Definition cg_spoc (d : ds) (ca : ctxarg) (dflt : bool) : ds * option cid :=
 
 Definition cg_add (d : ds) (t : triple) (ca : ctxarg) : ds :=
   let (d1, c) := cg_spoc d ca true in set_st d1 (st_add (st d1) t c).
+Definition cg_add_hist (d : ds) (t : triple) (ca : ctxarg) : ds :=
+  let (d1, c) := cg_spoc_hist d ca true in set_st d1 (st_add (st d1) t c).
 
 (* addN: Store.addN adds quad by quad while the generator calls _graph *)
 Definition cg_addN (d : ds) (l : list (triple * garg)) : ds :=
@@ -440,15 +454,11 @@ Definition op_wf (o : op) : bool :=
 Definition wf (c : case) : Prop := forallb op_wf (c_ops c) = true.
 
 (* ------------------------------------------------------------------ *)
-(* Known-finding triggers.
-   2 (F18): a quad whose graph component is None is added: Memory files the
-            triple under the union only, it belongs to no graph.
+(* Known-finding trigger.
    1 (F17): quads() restricted to a graph is asked while a matching triple of
             that graph also lives in another graph: the quads of the other
-            graphs are returned as well. *)
-Definition adds_none (o : op) : bool :=
-  match o with OAdd _ (CQuad None) => true | _ => false end.
-
+            graphs are returned as well.
+   (F18, a quad whose graph is None being filed under no graph, is repaired.) *)
 Definition leaks (sp : dspec) (o : op) : bool :=
   match o with
   | OQuads p (CQuad (Some a)) =>
@@ -463,6 +473,4 @@ Fixpoint leak_run (sp : dspec) (ops : list op) : bool :=
   | o :: r => leaks sp o || leak_run (sp_step sp o) r
   end.
 
-Definition kf (c : case) : N :=
-  if existsb adds_none (c_ops c) then 2%N
-  else if leak_run sp_init (c_ops c) then 1%N else 0%N.
+Definition kf (c : case) : N := if leak_run sp_init (c_ops c) then 1%N else 0%N.
